@@ -47,6 +47,53 @@ fn frob_scalar(k: u32) -> Fr {
     acc
 }
 
+/// the scalar by which the order-3 endomorphism (x, y) -> (w x, y) acts on the group: one of the two primitive cube roots of
+/// unity mod r, identified on the generator (None if the library's own arithmetic does not single one out)
+pub fn endo_eigen<G: Grp>() -> Option<Fr> {
+    let e = Fr::from_slice(&hex!("3cc0000000e137a5f201391aa72f97c16dfb866e5da383fa4c7a4b34478a450c")).unwrap();   // (r-1)/3
+    let mut g = Fr::one() + Fr::one();
+    for _ in 0..8 {
+        let l = g.pow(e);
+        if l != Fr::one() {
+            let target = G::gen().endo();
+            for c in [l, l * l] {
+                if G::gen() * c == target {
+                    return Some(c);
+                }
+            }
+            return None;
+        }
+        g = g + Fr::one();
+    }
+    None
+}
+/// the second operand of an additivity law: usually independent, otherwise RELATED to the first - the same point (same or another
+/// representative), the opposite one sharing raw x and y, an endomorphism image sharing raw y and z, or an unrelated point
+/// presented with the first operand's raw z, x or y
+fn related<G: Grp>(rng: &mut StdRng, p: G, kp: Fr, kc: Fr, tag: &str, eig: &Option<Fr>) -> (G, Fr) {
+    let indep = |rng: &mut StdRng| (G::rep(rng, G::gen() * kc, if kc.is_zero() { "ZN" } else { tag }), kc);
+    if p.is_zero_() {
+        return indep(rng);
+    }
+    match rng.gen_range(0..12) {
+        0 => (p, kp),
+        1 => (G::rep(rng, p, tag), kp),
+        2 => (p.flip_z(), -kp),
+        3 => (G::rep(rng, -p, tag), -kp),
+        4 | 5 => match eig {
+            Some(l) => {
+                if rng.gen() { (p.endo(), kp * *l) } else { (p.endo().endo(), kp * *l * *l) }
+            }
+            None => indep(rng),
+        },
+        6 | 7 => {
+            let (e, ke) = indep(rng);
+            (e.share_coord(&p, rng.gen_range(0..4usize).min(2)).unwrap_or(e), ke)
+        }
+        _ => indep(rng),
+    }
+}
+
 pub fn run_gt(a: &Args, out: &mut Out) {
     let pool = load_pool(&a.pool, "Fr");
     let mut rng = rng_from(a.seed, "gt");
@@ -145,6 +192,7 @@ pub fn run_pairing(a: &Args, out: &mut Out) {
             }
         }
     }
+    let (eig1, eig2) = (endo_eigen::<G1>(), endo_eigen::<G2>());
     let mut k = 0u64;
     while !out.full() {
         k += 1;
@@ -208,8 +256,8 @@ pub fn run_pairing(a: &Args, out: &mut Out) {
                 pair_ev(out, v, p, q, ka, kb, false);
                 let (kc, kd) = (pick_scalar(&mut rng, &pool), pick_scalar(&mut rng, &pool));
                 let (tp2, tq2) = (pick_tag(&mut rng), pick_tag(&mut rng));
-                let p2 = g1_rep(&mut rng, G1::one() * kc, if kc.is_zero() { "ZN" } else { tp2 });
-                let q2 = g2_rep(&mut rng, G2::one() * kd, if kd.is_zero() { "ZN" } else { tq2 });
+                let (p2, kc) = related(&mut rng, p, ka, kc, tp2, &eig1);
+                let (q2, kd) = related(&mut rng, q, kb, kd, tq2, &eig2);
                 out.call("pair.laws", json!({"v": v, "p": p.jac(), "q": q.jac(), "p2": p2.jac(), "q2": q2.jac(),
                                              "ka": b(&ka.to_slice()), "kb": b(&kb.to_slice()), "kc": b(&kc.to_slice()), "kd": b(&kd.to_slice())}), || {
                     let e = pair_by(v, p, q);
